@@ -106,6 +106,9 @@ func (in *c05Instance) run(st c05Step) (obs string) {
 				}
 				toks = append(toks, tk{t.Type(), t.Value(), t.Line(), t.Column()})
 			}
+			if st.Abort >= 0 && st.HasNext > 0 {
+				in.tok.HasNextToken() // the iteration is abandoned with a peeked, unfetched token pending
+			}
 			obs = tksString(toks)
 		case "exprparser":
 			err := in.ep.ParseString(st.Input)
